@@ -149,6 +149,9 @@ def sbeppc(variant="rel", main_src=None):
     """Path of an sbeppc binary built from the current tree (built on demand)."""
     d = tree_dir()
     out = os.path.join(d, "sbeppc-" + variant)
+    if main_src:
+        # a wrapper around main.cpp that lives in rt/: the artefact also depends on its text
+        out += "-" + C.sha(open(main_src, "rb").read())[:10]
     if os.path.exists(out):
         return out
     with _Lock(out + ".lock"):
@@ -170,8 +173,16 @@ def sbeppc(variant="rel", main_src=None):
     return out
 
 
-def prebuild_sbeppc(variants=("san", "rel")):
-    C.pmap(sbeppc, list(variants), workers=len(variants))
+FUZZ_MAIN = os.path.join(C.RT, "fuzz_main.cpp")
+
+
+def sbeppc_fuzz():
+    """libFuzzer build of sbeppc (clang, ASan+UBSan, asserts alive) around rt/fuzz_main.cpp."""
+    return sbeppc("fuzz", main_src=FUZZ_MAIN)
+
+
+def prebuild_sbeppc(variants=("san", "rel", "fuzz")):
+    C.pmap(lambda v: sbeppc_fuzz() if v == "fuzz" else sbeppc(v), list(variants), workers=len(variants))
 
 
 # ---------------------------------------------------------------- drivers
